@@ -234,7 +234,7 @@ def run_batch(pid: str, tier: str, base_seed: int, workers: int | None = None,
         for p in mod.cases(tier):
             cases.append(p)
     n_enum = len(cases)
-    cases += [{} for _ in range(cfg["runs"])]
+    cases += [dict(cfg.get("params", {})) for _ in range(cfg["runs"])]
     indexed = list(enumerate(cases))
     chunk = max(1, min(cfg.get("chunk", 64), (len(indexed) + workers * 4 - 1) // (workers * 4)))
     chunks = [indexed[i:i + chunk] for i in range(0, len(indexed), chunk)]
